@@ -255,6 +255,9 @@ PRELUDE = r'''
 (S "ffi/malloc" :ffi-use (fn [r] (ffi/malloc 8)))
 (S "ffi/free" :ffi-use (fn [r] (ffi/free (or (array/pop (need :ptrs)) (error :c18-skip)))))
 (S "ffi/read" :ffi-use (fn [r] (ffi/read :int32 (need :keep))))
+(S "ffi/read" :ffi-use (fn [r] (ffi/read :int32 @"\x01\x00\x00\x00")))
+(S "ffi/read" :ffi-use (fn [r] (ffi/read [:int16 :int16] "\x01\x00\x02\x00")))
+(S "ffi/write" :ffi-use (fn [r] (ffi/write [:int16 :int16] [1 2] @"")))
 (S "ffi/write" :ffi-use (fn [r] (ffi/write :int32 7)))
 (S "ffi/pointer-buffer" :ffi-use (fn [r] (ffi/pointer-buffer (need :keep) 16)))
 (S "ffi/pointer-cfunction" :ffi-use (fn [r] (ffi/pointer-cfunction (need :keep))))
